@@ -41,7 +41,7 @@ def strategy(tier):
     @st.composite
     def cases(draw):
         spec, focus = draw(gen.specs_and_focus(opts, 8))
-        rec = draw(gen.recipes(spec, max_rows=30 if thorough else 12, reload_ok=False, focus=focus))
+        rec = draw(gen.recipes(spec, max_rows=30 if thorough else 12, reload_ok=False, focus=focus, inf_weights=True))
         return {"spec": spec, "state": rec, "f": draw(st.sampled_from((2.0, 0.5, 3.0)))}
 
     return cases()
@@ -140,6 +140,25 @@ def split_known_names(diffs):
     return known, other
 
 
+def split_known_variance(diffs, wire):
+    """Known finding c04-deviate-infinite-entries-variance: a Deviate whose entries are infinite serialises variance 0.0
+    (varianceTimesEntries / inf) and reloads it as 0.0 * inf = NaN.  Recognised only at a 'variance' key that is 0.0
+    before and 'nan' after, in a fragment whose 'entries' is 'inf'."""
+    known, other = [], []
+    for p, a, b in diffs:
+        holder = wire
+        try:
+            for k in p[:-1]:
+                holder = holder[k]
+        except (KeyError, IndexError, TypeError):
+            holder = None
+        if p and p[-1] == "variance" and a == 0.0 and b == "nan" and isinstance(holder, dict) and holder.get("entries") == "inf":
+            known.append((p, a, b))
+        else:
+            other.append((p, a, b))
+    return known, other
+
+
 def fmtj(ds):
     return "; ".join(f"{'/'.join(map(str, p))}: {x!r} vs {y!r}" for p, x, y in ds[:6])
 
@@ -190,6 +209,7 @@ def check(case):  # noqa: PLR0915
     wire = json.loads(text)
 
     known = []
+    known_var = []
     tmpdir = tempfile.mkdtemp(prefix="vp_c04_")
     try:
         path = os.path.join(tmpdir, "h.json")
@@ -207,11 +227,19 @@ def check(case):  # noqa: PLR0915
             walk.require_views(r, name)
             back = json.loads(json.dumps(r.toJson(), allow_nan=False))
             kn, other = split_known_names(jdiff(wire, back))
+            kv, other = split_known_variance(other, wire)
             require(not other, "roundtrip-differs", lambda: f"{name} re-serialises differently: {fmtj(other)}")  # noqa: B023
             known += kn
+            known_var += kv
     finally:
         shutil.rmtree(tmpdir, ignore_errors=True)
 
+    if known_var:
+        raise Violation(
+            "deviate-infinite-entries-variance",
+            f"a Deviate with infinite entries does not round-trip its variance: {fmtj(known_var)}",
+            {"key": "variance", "entries": "inf"},
+        )
     r = reloads["fromJson(dict)"]
     r2 = F.fromJson(r.toJson())
     require(h.toImmutable() == r, "immutable-not-equal", "h.toImmutable() != fromJson(h.toJson())")
